@@ -441,6 +441,13 @@ func (p *proxyConn) writeResponse(res *http.Response) error {
 		}
 	}
 
+	// A client that speaks HTTP/1.0 does not understand the chunked transfer coding,
+	// delimit the body by closing the connection instead.
+	if !req.ProtoAtLeast(1, 1) && len(res.TransferEncoding) > 0 && !isHeaderOnlySpec(res) {
+		res.TransferEncoding = nil
+		res.Close = true
+	}
+
 	// A body of unknown length that is not chunked is delimited by the end of the connection
 	// (this is also what is left after the transport has decompressed a gzip response it
 	// solicited itself). If the connection is to be kept open the client could not tell where
